@@ -2098,10 +2098,16 @@ func (p *Parser) evaluateSingleExpression(ctx context) (Expression, error) {
 	// Handle groups.
 	case lexer.OPENING_ROUND_BRACKET:
 		p.eat() // Eat opening bracket.
+		childToken := p.peek()
 		child, err := p.evaluateExpression(ctx)
 
 		if err != nil {
 			return nil, err
+		}
+
+		// A group is a single value, a call without or with several return values cannot be grouped.
+		if dataType := child.ValueType().DataType(); dataType == DATA_TYPE_UNKNOWN || dataType == DATA_TYPE_MULTIPLE {
+			return nil, p.expectedError("single value in parentheses", childToken)
 		}
 		expr = Group{
 			child: child,
